@@ -38,6 +38,7 @@ FIXED = [
  ("C09", "F9", "replays/C09-F9-local-clustering.json"),
  ("C10", "F10", "replays/C10-F10-bipartite-order.json"), ("C10", "F11", "replays/C10-F11-sc-net-attrs.json"),
  ("C11", "F12", "replays/C11-F12-incidence-1xm.json"), ("C11", "F11", "replays/C11-F11-hif-sc-net-attrs.json"),
+ ("C16", "F13", "replays/C16-F13-hsbm-p1.json"),
  ("C04", "F5a", "replays/C04-F5a-idx0.json"), ("C04", "F5b", "replays/C04-F5b-bulk-desc.json"),
  ("C04", "F5c", "replays/C04-F5c-df.json"), ("C04", "F5c", "replays/C04-F5c-dh-bipartite.json"),
 ]
